@@ -1,4 +1,389 @@
-"""optimisation-mode checks (filled in with C04)"""
-def check_c06_opmode(run, drv, rng, sc, n): pass
-def check_c07_opmode(run, drv, rng, sc, n): pass
-def check_c14_opmode(run, drv, rng, sc, frac): pass
+"""Optimization-mode checks (C04, and the -O parts of C06/C07/C14).
+
+(1) every generated program is PARSED: the emitted Encode*/Decode* statements follow fixed
+templates; they are parsed back into items (si, fi, shift, mask, assign) per leaf and compared
+with the Lean plan (`op.plan`) for that message — C little-endian branch, C big-endian branch
+and Go; so the per-schema "new code" is checked against the plan the theorems cover.
+(2) for C the generated code is also compiled and executed under --endian little / big / both
+(with and without -DBP_BIG_ENDIAN) and compared with the specification.
+"""
+from __future__ import annotations
+
+import random
+import re
+from typing import Any, Dict, List, Optional, Tuple
+
+from . import common
+from . import creal as C
+from . import gen as G
+from . import real as R
+from . import props_c
+from .props_wire import shape_key
+
+BYTEVAL = r"\(\(\(unsigned\)\(s\[(\d+)\]\)(?:(>>|<<) (\d+))?\) & (\d+)\)"
+RE = {
+    "c_enc_le": re.compile(r"^s\[(\d+)\] (=|\|=) \(\(\(unsigned char \*\)&\((.+)\)\)\[(\d+)\] (?:(>>|<<) (\d+))?\) & (\d+);$"),
+    "c_enc_be": re.compile(r"^s\[(\d+)\] (=|\|=) \(\(([\w ]+)\)\((.+?)\)(?:(>>|<<) (\d+))?\) & (\d+);$"),
+    "c_dec_le": re.compile(r"^\(\(unsigned char \*\)&\((.+)\)\)\[(\d+)\] (=|\|=) \(s\[(\d+)\] (?:(>>|<<) (\d+))?\) & (\d+);$"),
+    "c_dec_be_a": re.compile(r"^(.+?) \|= \(([\w ]+)\)" + BYTEVAL + r";$"),
+    "c_dec_be_b": re.compile(r"^(.+?) \|= \(([\w ]+)\)\(\(([\w ]+)\)" + BYTEVAL + r" << (\d+)\);$"),
+    "c_sign": re.compile(r"^if \(\((.+?) >> (\d+)\) & 1\) (.+?) \|= (.+);$"),
+    "go_enc": re.compile(r"^s\[(\d+)\] \|= \(byte\((.+?)(?: >> (\d+))?\) (?:(>>|<<) (\d+))?\) & (\d+)$"),
+    "go_dec": re.compile(r"^(.+?) (\|=|=) ([\w.]+)\((?:byte2bool\()?byte\(s\[(\d+)\] (?:(>>|<<) (\d+))?\) & (\d+)\)\)?(?: << (\d+))?$"),
+    "go_shl": re.compile(r"^(.+?) <<= (\d+)$"),
+    "go_shr": re.compile(r"^(.+?) >>= (\d+)$"),
+}
+
+
+def sh(op: Optional[str], k: Optional[str]) -> int:
+    if not op:
+        return 0
+    return int(k) if op == ">>" else -int(k)
+
+
+def c_function_bodies(text: str, name: str) -> Dict[str, Dict[str, List[str]]]:
+    """{'enc'|'dec': {'le': [...], 'be': [...]}} statement lines of Encode<name>/Decode<name>;
+    with --endian little/big only that key is present ('any')"""
+    out: Dict[str, Dict[str, List[str]]] = {}
+    for kind, fn in (("enc", "Encode"), ("dec", "Decode")):
+        m = re.search(r"^int " + fn + re.escape(name) + r"\(struct " + re.escape(name) + r" \*m, unsigned char \*s\) \{\n(.*?)    return 0;\n\}", text, re.S | re.M)
+        if not m:
+            continue
+        lines = [l.strip() for l in m.group(1).split("\n")]
+        cur = "any"
+        d: Dict[str, List[str]] = {}
+        for l in lines:
+            if l == "#ifndef BP_BIG_ENDIAN":
+                cur = "le"
+            elif l == "#else":
+                cur = "be"
+            elif l == "#endif":
+                cur = "any"
+            elif l:
+                d.setdefault(cur, []).append(l)
+        out[kind] = d
+    return out
+
+
+def go_function_bodies(text: str, name: str) -> Dict[str, List[str]]:
+    out: Dict[str, List[str]] = {}
+    m = re.search(r"^func \(m \*" + re.escape(name) + r"\) Encode\(\) \[\]byte \{\n(.*?)\treturn s\n\}", text, re.S | re.M)
+    if m:
+        out["enc"] = [l.strip() for l in m.group(1).split("\n") if l.strip() and not l.strip().startswith("s := make")]
+    m = re.search(r"^func \(m \*" + re.escape(name) + r"\) Decode\(s \[\]byte\) \{\n(.*?)\}", text, re.S | re.M)
+    if m:
+        out["dec"] = [l.strip() for l in m.group(1).split("\n") if l.strip()]
+    elif re.search(r"^func \(m \*" + re.escape(name) + r"\) Decode\(s \[\]byte\) \{\s*\}", text, re.M):
+        out["dec"] = []
+    return out
+
+
+def parse_items(lines: List[str], dialect: str, direction: str) -> Tuple[List[Tuple[str, List[Dict[str, Any]], Optional[Dict[str, Any]]]], List[str]]:
+    """group statements per consecutive chain: [(chain, items, sign statement)], unparsed lines"""
+    groups: List[Tuple[str, List[Dict[str, Any]], Optional[Dict[str, Any]]]] = []
+    bad: List[str] = []
+
+    def add(chain: str, item: Dict[str, Any]) -> None:
+        if groups and groups[-1][0] == chain and groups[-1][2] is None:
+            groups[-1][1].append(item)
+        else:
+            groups.append((chain, [item], None))
+
+    def set_sign(chain: str, sg: Dict[str, Any]) -> None:
+        if groups and groups[-1][0] == chain:
+            c, its, old = groups[-1]
+            if old and "shl" in old and "shr" in sg:
+                old.update(sg)
+            else:
+                groups[-1] = (c, its, sg)
+        else:
+            bad.append(f"sign statement without items: {chain}")
+
+    for l in lines:
+        if l == "memset(m, 0, sizeof(*m));":
+            groups.append(("<memset>", [], None))
+            continue
+        if dialect == "cLE" and direction == "enc":
+            m = RE["c_enc_le"].match(l)
+            if m:
+                add(m.group(3), {"si": int(m.group(1)), "fi": int(m.group(4)), "shift": sh(m.group(5), m.group(6)),
+                                 "mask": int(m.group(7)), "assign": m.group(2) == "="})
+                continue
+        if dialect == "cBE" and direction == "enc":
+            m = RE["c_enc_be"].match(l)
+            if m:
+                add(m.group(4), {"si": int(m.group(1)), "total_shift": sh(m.group(5), m.group(6)), "mask": int(m.group(7)),
+                                 "assign": m.group(2) == "=", "utype": m.group(3)})
+                continue
+        if dialect == "cLE" and direction == "dec":
+            m = RE["c_dec_le"].match(l)
+            if m:
+                add(m.group(1), {"si": int(m.group(4)), "fi": int(m.group(2)), "shift": sh(m.group(5), m.group(6)),
+                                 "mask": int(m.group(7)), "assign": m.group(3) == "="})
+                continue
+        if dialect == "cBE" and direction == "dec":
+            m = RE["c_dec_be_b"].match(l)
+            if m:
+                add(m.group(1), {"si": int(m.group(4)), "fi": int(m.group(8)) // 8, "fi_rem": int(m.group(8)) % 8,
+                                 "shift": sh(m.group(5), m.group(6)), "mask": int(m.group(7)), "assign": False,
+                                 "type": m.group(2), "utype": m.group(3)})
+                continue
+            m = RE["c_dec_be_a"].match(l)
+            if m:
+                add(m.group(1), {"si": int(m.group(3)), "fi": 0, "fi_rem": 0, "shift": sh(m.group(4), m.group(5)),
+                                 "mask": int(m.group(6)), "assign": False, "type": m.group(2)})
+                continue
+        if dialect in ("cLE", "cBE") and direction == "dec":
+            m = RE["c_sign"].match(l)
+            if m and m.group(1) == m.group(3):
+                set_sign(m.group(1), {"bit": int(m.group(2)), "mask": m.group(4)})
+                continue
+        if dialect == "go" and direction == "enc":
+            m = RE["go_enc"].match(l)
+            if m:
+                chain = m.group(2)
+                b = re.match(r"^bool2byte\((?:bool\()?(.+?)\)?\)$", chain)
+                add(b.group(1) if b else chain, {"si": int(m.group(1)), "fi": int(m.group(3) or 0) // 8, "fi_rem": int(m.group(3) or 0) % 8,
+                                                  "shift": sh(m.group(4), m.group(5)), "mask": int(m.group(6)), "assign": False,
+                                                  "bool": bool(b)})
+                continue
+        if dialect == "go" and direction == "dec":
+            m = RE["go_shl"].match(l)
+            if m:
+                set_sign(m.group(1), {"shl": int(m.group(2))})
+                continue
+            m = RE["go_shr"].match(l)
+            if m:
+                set_sign(m.group(1), {"shr": int(m.group(2))})
+                continue
+            m = RE["go_dec"].match(l)
+            if m:
+                add(m.group(1), {"si": int(m.group(4)), "fi": int(m.group(8) or 0) // 8, "fi_rem": int(m.group(8) or 0) % 8,
+                                 "shift": sh(m.group(5), m.group(6)), "mask": int(m.group(7)), "assign": m.group(2) == "=",
+                                 "type": m.group(3)})
+                continue
+        bad.append(l)
+    return groups, bad
+
+
+def go_pascal(name: str) -> str:
+    return "".join(w[:1].upper() + w[1:] for w in name.split("_"))
+
+
+def go_leaves(t, path: str, out: List[Tuple[str, Any]]) -> None:
+    if isinstance(t, G.TArray):
+        for k in range(t.cap):
+            go_leaves(t.elem, f"{path}[{k}]", out)
+        return
+    if isinstance(t, G.TRef):
+        d = t.d
+        if isinstance(d, G.AliasDef):
+            return go_leaves(d.type, path, out)
+        if isinstance(d, G.MsgDef):
+            for f in sorted(d.fields, key=lambda f: f.num):
+                go_leaves(f.type, f"{path}.{go_pascal(f.name)}", out)
+            return
+    out.append((path, t))
+
+
+def compare_with_plan(run: common.Run, rep: Dict[str, Any], groups, bad, plan, leaves, dialect: str, direction: str) -> bool:
+    """parsed statements vs the Lean plan; returns True if identical"""
+    if bad:
+        run.notes.setdefault("model_disagreements", []).append(dict(rep, note="statement outside the known templates", lines=bad[:5], dialect=dialect))
+        return False
+    gs = [g for g in groups if g[0] != "<memset>"]
+    has_memset = any(g[0] == "<memset>" for g in groups)
+    problems: List[str] = []
+    if dialect == "cBE" and direction == "dec" and not has_memset and gs:
+        problems.append("big-endian decoder without memset")
+    nonempty = [(p, lf) for (p, lf) in zip(leaves, plan) if lf["items"]]
+    if len(gs) != len(nonempty):
+        problems.append(f"{len(gs)} statement groups for {len(nonempty)} leaves")
+    for (chain, items, sign), ((path, t), lf) in zip(gs, nonempty):
+        if chain.replace(" ", "") != path.replace(" ", ""):
+            problems.append(f"chain {chain} != expected leaf {path}")
+            break
+        if len(items) != len(lf["items"]):
+            problems.append(f"{chain}: {len(items)} items, plan has {len(lf['items'])}")
+            break
+        for it, pl in zip(items, lf["items"]):
+            exp_assign = {("cLE", "enc"): pl["r"] == 0, ("cBE", "enc"): pl["r"] == 0, ("cLE", "dec"): pl["r"] == 0,
+                          ("cBE", "dec"): False, ("go", "enc"): False, ("go", "dec"): isinstance(t, G.TBool)}[(dialect, direction)]
+            if "total_shift" in it:
+                ok = it["si"] == pl["si"] and it["total_shift"] == 8 * pl["fi"] + pl["shift"] and it["mask"] == pl["mask"]
+            else:
+                ok = it["si"] == pl["si"] and it["fi"] == pl["fi"] and it.get("fi_rem", 0) == 0 and it["shift"] == pl["shift"] and it["mask"] == pl["mask"]
+            if not ok or it["assign"] != exp_assign:
+                problems.append(f"{chain}: item {it} != plan {pl} (assign expected {exp_assign})")
+                break
+        # sign statement exactly for signed widths other than 8/16/32/64
+        n = lf["n"]
+        need = direction == "dec" and lf["signed"] and n not in (8, 16, 32, 64)
+        if need != (sign is not None):
+            problems.append(f"{chain}: sign statement {'missing' if need else 'unexpected'} (int{n})")
+        elif sign is not None:
+            if dialect == "go":
+                dd = 8 * props_c.storage_size(n) - n
+                if sign.get("shl") != dd or sign.get("shr") != dd:
+                    problems.append(f"{chain}: go sign shifts {sign} != {dd}")
+            else:
+                m = sign["mask"].replace(" ", "")
+                expm = -(1 << n)
+                okm = m == str(expm) or (n == 63 and m == "(-9223372036854775807-1)")
+                if sign["bit"] != n - 1 or not okm:
+                    problems.append(f"{chain}: C sign statement {sign} != bit {n-1}, mask {expm}")
+        if problems:
+            break
+    if problems:
+        run.notes.setdefault("plan_mismatches", []).append(dict(rep, problems=problems[:3], dialect=dialect, direction=direction))
+        return False
+    return True
+
+
+def check_opmode(run: common.Run, drv: common.Driver, rng: random.Random, sc: R.Scratch, n_schemas: int, n_values: int,
+                 pid: str, exec_configs: List[Dict[str, Any]], overdriven: bool = False, parse: bool = True) -> None:
+    opts = props_c.traditional_opts()
+    for k in range(n_schemas):
+        g = G.SchemaGen(rng, opts)
+        s = g.schema()
+        text = G.schema_text(s, rng)
+        base = f"{pid.lower()}o{k}_{rng.randrange(1 << 30)}"
+        path = sc.write(f"{base}.bitproto", text)
+        try:
+            proto = R.parse_file(path, traditional=True)
+            c_both = R.render_strings(proto, "c", optimize=True, endian="both")[".c"]
+            c_le = R.render_strings(proto, "c", optimize=True, endian="little")[".c"]
+            c_be = R.render_strings(proto, "c", optimize=True, endian="big")[".c"]
+            go = R.render_strings(proto, "go", optimize=True)[".go"]
+        except Exception as e:
+            run.violation({"kind": "compile-failed", "input": {"files": {"main.bitproto": text}}, "observed_impl": f"{type(e).__name__}: {e}"})
+            continue
+        msgs = s.messages()
+        if parse:
+            plans = drv.batch([{"op": "op.plan", "ty": G.msg_ty_json(m), "enc": e} for m in msgs for e in (True, False)])
+            for j, m in enumerate(msgs):
+                cn = G.c_name(m)
+                rep = {"input": {"files": {"main.bitproto": text}, "message": cn}}
+                cl: List[Tuple[str, Any]] = []
+                C.leaves(G.TRef(m), "(*m)", cl)
+                gl: List[Tuple[str, Any]] = []
+                go_leaves(G.TRef(m), "m", gl)
+                fb, fl, fbe = c_function_bodies(c_both, cn), c_function_bodies(c_le, cn), c_function_bodies(c_be, cn)
+                gb = go_function_bodies(go, cn)
+                for di, direction in enumerate(("enc", "dec")):
+                    plan = plans[2 * j + di].get("ok")
+                    run.evaluated()
+                    run.count("programs_parsed")
+                    for t in shape_key(m):
+                        run.nontrivial((pid, "plan", direction, t))
+                    checks = [("cLE", fb.get(direction, {}).get("le", []), cl), ("cBE", fb.get(direction, {}).get("be", []), cl),
+                              ("cLE", fl.get(direction, {}).get("any", []), cl), ("cBE", fbe.get(direction, {}).get("any", []), cl),
+                              ("go", gb.get(direction, []), gl)]
+                    if direction not in fb or direction not in fl or direction not in fbe or direction not in gb:
+                        run.notes.setdefault("plan_mismatches", []).append(dict(rep, problems=["Encode/Decode function not found"], direction=direction))
+                        continue
+                    # --endian both must contain both branches unless the message has no leaf bits
+                    for (dialect, lines, lv) in checks:
+                        groups, bad = parse_items(lines, dialect, direction)
+                        compare_with_plan(run, rep, groups, bad, plan, lv, dialect, direction)
+        # execute the C variants
+        jobs = []
+        for m in msgs:
+            for _ in range(n_values):
+                v = G.rand_msg_value(rng, m)
+                if overdriven:
+                    v = props_c.overdrive(rng, G.TRef(m), v)
+                jobs.append((m, v))
+        if not jobs or not exec_configs:
+            continue
+        reqs = []
+        for (m, v) in jobs:
+            reqs.append({"op": "spec.encode", "ty": G.msg_ty_json(m), "val": G.msg_val_json(m, v)})
+            reqs.append({"op": "op.encode", "dialect": "cLE", "ty": G.msg_ty_json(m), "val": G.msg_val_json(m, v)})
+        ans = drv.batch(reqs)
+        for cfg in exec_configs:
+            try:
+                mod = C.CModule(sc, s, text, base, cflags=cfg.get("cflags", ("-O2",)), optimize=True, endian=cfg["endian"])
+            except Exception as e:
+                run.violation({"kind": "compile-failed", "input": {"files": {"main.bitproto": text}, "config": cfg["name"]},
+                               "observed_impl": str(e)[:800]})
+                continue
+            for j, (m, v) in enumerate(jobs):
+                spec, model = ans[2 * j], ans[2 * j + 1]
+                run.evaluated()
+                run.count(f"exec:{cfg['name']}")
+                for t in shape_key(m):
+                    run.nontrivial((pid, cfg["name"], t))
+                rep = {"input": {"files": {"main.bitproto": text}, "message": G.c_name(m), "ty": G.msg_ty_json(m),
+                                 "val": G.msg_val_json(m, v), "config": cfg["name"]}}
+                got, sok, bok = mod.encode(m, v, prefill=0)
+                if got.hex() != spec.get("ok") or not sok or not bok:
+                    run.violation(dict(rep, kind="impl-vs-spec", expected_by_spec=spec, model_answer=model,
+                                       observed_impl={"bytes": got.hex(), "struct_guards_intact": sok, "buffer_guards_intact": bok}))
+                    continue
+                if model.get("ok") != got.hex():
+                    run.notes.setdefault("model_disagreements", []).append(dict(rep, observed_impl=got.hex(), model_answer=model))
+                if not overdriven:
+                    dv, dok = mod.decode(m, bytes.fromhex(spec["ok"]))
+                    if dv != v or not dok:
+                        run.violation(dict(rep, kind="impl-vs-spec", expected_by_spec={"decode": v},
+                                           observed_impl={"decode": dv, "struct_guards_intact": dok}))
+            del mod
+
+
+EXEC_ALL = [{"name": "O-little", "endian": "little"}, {"name": "O-big", "endian": "big"}, {"name": "O-both", "endian": "both"},
+            {"name": "O-both-BP_BIG_ENDIAN", "endian": "both", "cflags": ("-O2", "-DBP_BIG_ENDIAN")}]
+
+
+def finish_plan(run: common.Run) -> None:
+    """a generated program that differs from the plan breaks the correspondence"""
+    pm = run.notes.get("plan_mismatches", [])
+    run.notes["plan_mismatches_count"] = len(pm)
+    if pm:
+        run.notes.setdefault("model_disagreements", []).extend(pm[:5])
+        run.notes["plan_mismatches"] = pm[:5]
+
+
+def check_c04(run, drv, rng, sc, n_schemas: int, n_values: int) -> None:
+    check_opmode(run, drv, rng, sc, n_schemas, n_values, "C04", EXEC_ALL)
+    finish_plan(run)
+
+
+def check_c06_opmode(run, drv, rng, sc, n: int) -> None:
+    check_opmode(run, drv, rng, sc, n, 4, "C06", [EXEC_ALL[0], EXEC_ALL[3]], parse=True)
+    finish_plan(run)
+
+
+def check_c07_opmode(run, drv, rng, sc, n: int) -> None:
+    check_opmode(run, drv, rng, sc, n, 4, "C07", [EXEC_ALL[0], EXEC_ALL[1]], overdriven=True, parse=False)
+
+
+def check_c14_opmode(run, drv, rng, sc, frac: float) -> None:
+    """frames through the -O generator: executed little- and big-endian branches"""
+    for (kname, n, signed) in props_c.kind_list():
+        if rng.random() > frac:
+            continue
+        s, msgs = props_c.frame_schema(kname, n)
+        text = G.schema_text(s)
+        base = f"c14o_{kname}{n}"
+        vals = props_c.frame_values(kname, n, signed, rng)
+        for cfg in (EXEC_ALL[0], EXEC_ALL[1]):
+            try:
+                mod = C.CModule(sc, s, text, base, optimize=True, endian=cfg["endian"])
+            except Exception as e:
+                run.violation({"kind": "compile-failed", "input": {"files": {"main.bitproto": text}}, "observed_impl": str(e)[:600]})
+                continue
+            jobs = [(m, props_c.frame_value(pos, off, x, vals, rng)) for (m, off, pos) in msgs for x in vals]
+            ans = drv.batch([{"op": "spec.encode", "ty": G.msg_ty_json(m), "val": G.msg_val_json(m, v)} for (m, v) in jobs])
+            for (m, v), a in zip(jobs, ans):
+                run.evaluated()
+                run.nontrivial(("c14op", cfg["name"], kname, n, m.name))
+                run.count(f"opmode_frames:{cfg['name']}")
+                got, sok, bok = mod.encode(m, v)
+                dv, dok = mod.decode(m, bytes.fromhex(a["ok"]))
+                if got.hex() != a["ok"] or dv != v or not (sok and bok and dok):
+                    run.violation({"kind": "impl-vs-spec", "input": {"files": {"main.bitproto": text}, "message": m.name, "config": cfg["name"],
+                                                                      "ty": G.msg_ty_json(m), "val": G.msg_val_json(m, v)},
+                                   "observed_impl": {"bytes": got.hex(), "decode": dv, "guards": [sok, bok, dok]},
+                                   "expected_by_spec": {"bytes": a["ok"], "decode": v}})
+            del mod
